@@ -177,7 +177,8 @@ impl Probe {
         };
         match action {
             None => Ok(()),
-            Some(StorageFault::Err) => Err(Error::Database(format!(
+            // what a failing SQLite statement or a dead storage thread yields: Error::Other
+            Some(StorageFault::Err) => Err(Error::Other(anyhow::anyhow!(
                 "injected fault: storage call {name} failed"
             ))),
             Some(StorageFault::Stop) => {
